@@ -140,6 +140,10 @@ class Command(ctypes.Structure):
                 value = kwargs.get(field[0])
                 if isinstance(value, bool):
                     continue
+                if isinstance(value, int) and type(value) is not int:
+                    # A subclass of int (such as a Future of the SDK) can carry its value
+                    # in __int__: that is the value to check and to encode, not the raw one
+                    value = kwargs[field[0]] = int(value)
                 if not isinstance(value, numbers.Integral):
                     # ctypes also takes (and truncates) any object that can be used as an
                     # index, e.g. a zero-dimensional numpy array
